@@ -519,6 +519,29 @@ def run(ctx):
                             f"same converter, after domain-{agent_ids[i]}.pddl was regenerated with the same size")
                 fs.write_real(pth, texts[i])
                 ctx.probes["agent_file_regenerated_same_size"] += 1
+    # ---- history: another agent joins - a new agent file appears in the directory (one of the files with an action under
+    # another name) - and the SAME converter combines again: the union now includes the newcomer
+    if cfg.chance(1, 4):
+        i = ops.draw(nfiles)
+        acts = sorted(files[i]["actions"])
+        used = {a for F in files for a in F["actions"]}
+        if acts:
+            a = acts[ops.draw(len(acts))]
+            b = a[:-1] + ("z" if a[-1] != "z" else "y")
+            if b not in used:
+                Fn = dict(files[i], actions={b: files[i]["actions"][a]})
+                newp = ddir / "domain-znewcomer.pddl"
+                fs.write_real(newp, G.render_domain(Fn))
+                try:
+                    comb_n = conv.locate_domains(add_dummy_actions=dummy)
+                except Exception as e:
+                    raise Violation("C17/combine-raised", "locate_domains", f"{type(e).__name__}: {e}")
+                finally:
+                    import os as _os
+                    _os.remove(newp)
+                check_union(ctx, walker.w_domain(comb_n), union_vocab(files + [Fn]), W, dummy,
+                            "same converter, after a new agent file appeared in the directory")
+                ctx.probes["agent_file_added_between_combinations"] += 1
     # ---- history: the caller revises the combination it was handed, in place (adds an effect to an action); the SAME
     # converter then combines the unchanged directory again - and must again produce the union of the agents' files
     if cfg.chance(1, 3):
